@@ -18,6 +18,22 @@ NA = {
 }
 
 CHECKS = {
+ 'C13': dict(machine='M-PART', level='exploration', design='3/C13',
+   text='Seeded search over adaptation histories: sequences of event-wise and affine adapt() calls (whole decisions and slices, '
+        'random scenario labellings, interleaved with other declarations) build partitions and dependency masks; a closed-form '
+        'optimum that decodes the partition/mask actually enforced, non-anticipativity of per-scenario values, NaN on undeclared '
+        'components and a direct reference LP for expressions mixing two partitions decide whether dependence is exactly as declared; '
+        'every illegal declaration kind is injected after a random legal prefix and must raise.',
+   note='Trusted: engines on healthy calls; uniqueness argument of the closed forms (generic radii/probabilities/weights). Bounds: '
+        '<=5 scenarios, <=3 decision entries, <=4 random components.',
+   technique='deterministic simulation: seeded adapt()-history search with a reference partition/mask model and decoding closed forms'),
+ 'C12': dict(machine='M-PART', level='exploration', design='3/C12',
+   text='Same histories as C13 plus failed-then-healthy solve sequences: model.get() in user sense, x.get() per label and shape, '
+        'x.get(z) coefficients/NaN, x() vs x.get(), affine and bi-affine expression evaluation at assigned realisations are compared '
+        'with closed forms per scenario label; after an injected solver failure every query must raise. Only the history-dependent '
+        'read-back map is decided; evaluation of every convex atom is a pure function and is covered only for the atoms used here.',
+   note='Trusted: closed forms, engines on healthy calls. Convex-atom evaluation beyond affine/bi-affine is out of scope (pure function).',
+   technique='deterministic simulation: read-back checked against per-label closed forms after seeded adapt/solve/fault histories'),
  'C09': dict(machine='M-HIST', level='exploration', design='3/C09',
    text='Seeded search over build histories: one declared model is executed under random linear extensions of its step DAG '
         'with formulate/dual/solve/soc_solve/export/define-and-discard events and engine faults in between; every schedule must '
@@ -62,6 +78,7 @@ def build():
         },
         'engines': [
             {'name': 'M-HIST', 'path': 'machines/hist.py', 'serves_properties': ['C09'], 'kind_free_text': 'build-history simulator (schedules + engine faults)'},
+            {'name': 'M-PART', 'path': 'machines/part.py', 'serves_properties': ['C12', 'C13'], 'kind_free_text': 'adaptation-history simulator (partitions, dependency masks, read-back)'},
         ],
         'checks': checks,
         'not_applicable': na,
